@@ -259,7 +259,7 @@ static void oracle_reuse(Message & m, std::ostringstream & orc, int k, const cha
 }
 
 // ------------------------------------------------------------------------------------------ Message parsers
-static void run_msg(int k, const Bytes & in, std::ostringstream & o, std::ostringstream & orc, bool allocClause = true)
+static void run_msg(int k, const Bytes & in, std::ostringstream & o, std::ostringstream & orc, bool allocClause = true, bool mustAccept = false)
 {
    ExactBuf eb(in);
    Message m;
@@ -278,7 +278,11 @@ static void run_msg(int k, const Bytes & in, std::ostringstream & o, std::ostrin
       o << k << " ok c=" << (st2.IsOK() ? u.GetNumBytesRead() : 0) << " " << d << "\n";
       oracle_wf(m, orc, k, "Message::Unflatten");
    }
-   else o << k << " err\n";
+   else
+   {
+      o << k << " err\n";
+      if (mustAccept) orc << k << " ORACLE FAIL complete Message::Unflatten: a valid encoding is rejected\n";
+   }
    oracle_reuse(m, orc, k, "Message::Unflatten");
 }
 
@@ -316,26 +320,87 @@ static void run_tmsg(int k, const Bytes & tmpl, const Bytes & in, std::ostringst
 
 // nest,<depth>,<claim>: <depth> Messages nested through a one-item Message field around the inner bytes;
 // claim=1: every level declares (body/12) entries instead of 1 (entry count over-declared but within the code's own bound)
-static Bytes build_nest(uint32 depth, int claim, const Bytes & inner)
+static Bytes build_nest(uint32 depth, int claim, const Bytes & inner0)
 {
-   Bytes cur = inner;
-   if (cur.empty()) {w32(cur, CURRENT_PROTOCOL_VERSION); w32(cur, 0); w32(cur, 0);}
-   for (uint32 d=0; d<depth; d++)
+   Bytes inner = inner0;
+   if (inner.empty()) {w32(inner, CURRENT_PROTOCOL_VERSION); w32(inner, 0); w32(inner, 0);}
+   // size of the Message at level d (level 0 = inner): every level adds 12 (header) + 4+2 (name) + 4 (type) + 4 (field length) + 4 (sub-Message length)
+   const uint64 per = 30;
+   Bytes out; out.reserve((size_t)(inner.size()+per*depth));
+   for (uint32 d=depth; d>0; d--)
    {
-      Bytes m; m.reserve(cur.size()+40);
-      w32(m, CURRENT_PROTOCOL_VERSION); w32(m, d);
-      const uint32 body = 4+2+4+4+4+(uint32)cur.size();
-      w32(m, claim ? (body/12) : 1);
-      w32(m, 2); m.push_back('a'); m.push_back(0); w32(m, B_MESSAGE_TYPE); w32(m, 4+(uint32)cur.size()); w32(m, (uint32)cur.size());
-      m.insert(m.end(), cur.begin(), cur.end());
-      cur.swap(m);
+      const uint32 sub  = (uint32)(inner.size()+per*(d-1));   // size of the Message nested at this level
+      const uint32 body = 4+2+4+4+4+sub;
+      w32(out, CURRENT_PROTOCOL_VERSION); w32(out, d-1);
+      w32(out, claim ? (body/12) : 1);
+      w32(out, 2); out.push_back('a'); out.push_back(0); w32(out, B_MESSAGE_TYPE); w32(out, 4+sub); w32(out, sub);
    }
-   return cur;
+   out.insert(out.end(), inner.begin(), inner.end());
+   return out;
 }
 
 // ------------------------------------------------------------------------------------------ C parsers
 static void walk_umsg(const UMessage * um, int depth, unsigned long & sum);
-static void run_mini(int k, const Bytes & in, std::ostringstream & o, std::ostringstream & orc)
+static uint32 rd32at(const uint8 * b) {return ((uint32)b[0])|(((uint32)b[1])<<8)|(((uint32)b[2])<<16)|(((uint32)b[3])<<24);}
+
+// Reference walker for the differential oracle on MMUnflattenMessage: follows the documented layout and answers whether
+// every extent it meets stays inside its container (name and field payload inside the buffer, every variable-sized item
+// inside its field, every sub-Message inside the buffer).  Each condition here is one the parser itself is meant to
+// enforce, so "parser accepted" must imply "walker is satisfied"; a weakened bounds check shows up as a disagreement even
+// when the stray read happens to stay inside the heap block.
+static bool mini_contained(const uint8 * b, uint32 n, int depth)
+{
+   if ((n < 12)||(depth > 400)) return (depth > 400);
+   const uint32 numEntries = rd32at(b+8);
+   uint32 off = 12;
+   for (uint32 i=0; i<numEntries; i++)
+   {
+      if (n-off < 4) return false;
+      const uint32 nameLen = rd32at(b+off); off += 4;
+      if ((nameLen == 0)||(nameLen > n-off)) return false;
+      off += nameLen;
+      if (n-off < 8) return false;
+      const uint32 tc = rd32at(b+off), eLength = rd32at(b+off+4); off += 8;
+      if (eLength > n-off) return false;
+      switch(tc)
+      {
+         case B_BOOL_TYPE: case B_DOUBLE_TYPE: case B_FLOAT_TYPE: case B_INT64_TYPE: case B_INT32_TYPE: case B_INT16_TYPE: case B_INT8_TYPE:
+         case B_POINTER_TYPE: case B_POINT_TYPE: case B_RECT_TYPE:
+         break;
+         case B_MESSAGE_TYPE:
+         {
+            uint32 used = 0, eo = off;
+            while(used < eLength)
+            {
+               if ((eo > n)||(n-eo < 4)) return false;
+               const uint32 len = rd32at(b+eo); eo += 4;
+               if (len > n-eo) return false;
+               if (!mini_contained(b+eo, len, depth+1)) return false;
+               eo += len; used += 4+len;
+            }
+         }
+         break;
+         default:
+         {
+            if (eLength < 4) return false;
+            const uint32 numItems = rd32at(b+off);
+            uint32 eo = off+4, left = eLength-4;
+            for (uint32 j=0; j<numItems; j++)
+            {
+               if ((eo > n)||(n-eo < 4)) return false;
+               const uint32 sz = rd32at(b+eo); eo += 4;
+               if ((sz > 0xFFFFFFFBu)||(sz+4 > left)) return false;   // the item (with its length word) must fit in what is left of the field
+               left -= sz+4; eo += sz;
+            }
+         }
+         break;
+      }
+      off += eLength;
+   }
+   return true;
+}
+
+static void run_mini(int k, const Bytes & in, std::ostringstream & o, std::ostringstream & orc, bool mustAccept = false)
 {
    ExactBuf eb(in);
    MMessage * mm = MMAllocMessage(0);
@@ -345,8 +410,10 @@ static void run_mini(int k, const Bytes & in, std::ostringstream & o, std::ostri
       st = MMUnflattenMessage(mm, eb.p, eb.n);
       mt.report(orc, k, "MMUnflattenMessage", true);
    }
+   if ((st != CB_NO_ERROR)&&(mustAccept)) orc << k << " ORACLE FAIL complete MMUnflattenMessage: a valid encoding is rejected\n";
    if (st == CB_NO_ERROR)
    {
+      if (!mini_contained(eb.p, eb.n, 0)) orc << k << " ORACLE FAIL diff MMUnflattenMessage: accepts an encoding in which an item extent leaves its field or the buffer (reference walker disagrees)\n";
       const uint32 fs = MMGetFlattenedSize(mm);
       uint8 * p = (uint8 *) malloc(fs ? fs : 0);
       MMFlattenMessage(mm, p);
@@ -417,7 +484,7 @@ static void walk_umsg(const UMessage * um, int depth, unsigned long & sum)
    }
 }
 
-static void run_micro(int k, const Bytes & in, std::ostringstream & o, std::ostringstream & orc)
+static void run_micro(int k, const Bytes & in, std::ostringstream & o, std::ostringstream & orc, bool mustAccept = false)
 {
    ExactBuf eb(in);
    UMessage um; UMInitializeToInvalid(&um);
@@ -429,6 +496,7 @@ static void run_micro(int k, const Bytes & in, std::ostringstream & o, std::ostr
          sum += UMGetWhatCode(&um)+UMGetNumFields(&um)+UMGetFlattenedSize(&um);
          walk_umsg(&um, 0, sum);
       }
+      else if (mustAccept) orc << k << " ORACLE FAIL complete UMInitializeWithExistingData: a valid encoding is rejected\n";
       mt.report(orc, k, "UMessage read API", true);
    }
    {
@@ -581,7 +649,7 @@ static void sender_bytes_multi(const GwSpec & s, const std::vector<MessageRef> &
       for (size_t m=0; m<msgs.size(); m++)
       {
          (void) g()->AddOutgoingMessage(msgs[m]);
-         for (int i=0; (i<1000)&&(g()->HasBytesToOutput()); i++) if (g()->DoOutput().GetByteCount() <= 0) break;
+         for (int i=0; (i<1000)&&(g()->HasBytesToOutput()); i++) if (g()->DoOutput().GetByteCount() < 0) break;
       }
       out = pio._packets;
       g()->SetDataIO(DataIORef());
@@ -594,7 +662,7 @@ static void sender_bytes_multi(const GwSpec & s, const std::vector<MessageRef> &
       {
          cio._written.clear();
          (void) g()->AddOutgoingMessage(msgs[m]);
-         for (int i=0; (i<1000)&&(g()->HasBytesToOutput()); i++) if (g()->DoOutput().GetByteCount() <= 0) break;
+         for (int i=0; (i<1000)&&(g()->HasBytesToOutput()); i++) if (g()->DoOutput().GetByteCount() < 0) break;
          out.push_back(cio._written);   // one chunk per Message
       }
       g()->SetDataIO(DataIORef());
@@ -682,29 +750,32 @@ static void run_gw(int k, const GwSpec & s, const std::vector<Bytes> & segs, std
       }
       // the allocation clause of the property is about the Message parsers; for the stream gateways whose receive
       // buffer is bounded by a configured maximum the same linear budget (plus that maximum) is checked
-      g_budget += (maxIn != MUSCLE_NO_LIMIT) ? (long long) maxIn : 0;
+      g_budget += ((maxIn != MUSCLE_NO_LIMIT) ? (long long) maxIn : 0) + 1024*1024;
       const bool allocClause = (mio != NULL)&&(maxIn != MUSCLE_NO_LIMIT)&&(!f.pm);
       mt.report(orc, k, ("gw," + s.kind).c_str(), allocClause);
    }
    if (!modelled) o << k << " -\n";
    else if (segs.empty()) o << k << " s- n=0\n";
 
-   // reuse: Reset(), then a valid stream from a sender of the same kind must be delivered
+   // reuse: Reset(), then a valid stream from a sender of the same kind.  For the gateways whose Reset() is specified to
+   // return the parser to its initial state (binary, templating, text, raw, SLIP in stream mode) the Message must be delivered;
+   // for the others (tunnels keep per-source reassembly state, WebSocket has no Reset of its own) it must merely be survivable.
    {
       f.gw()->Reset();
       while(f.rcv.GetMessages().HasItems()) {MessageRef m; (void) f.rcv.RemoveHead(m);}
       const bool handshaking = ((s.kind == "ws")&&(s.U(1, 0) != 0));
-      if (!handshaking)
+      const bool textPacket  = ((s.kind == "text")&&(f.pm));   // its packet-mode sender is not usable as a source of valid streams
+      if ((!handshaking)&&(!textPacket))
       {
-         if (s.kind == "ws") {WebSocketMessageIOGateway * w = static_cast<WebSocketMessageIOGateway *>(f.gw()); w->ResetHeaderReceiveState(); w->_payload.Reset(); w->_payloadBytesRead = 0; w->_firstByteToMask = 0; w->_opCode = 0; w->_inputClosed = false; w->_receivedMsg.Reset();}
+         if (mio) mio->SetMaxIncomingMessageSize(MUSCLE_NO_LIMIT);
+         const bool mustDeliver = (!f.pm)&&((s.kind == "mio")||(s.kind == "mioz")||(s.kind == "tmpl")||((s.kind == "text")&&(s.U(0, 0) == 0))||(s.kind == "raw")||(s.kind == "slip"));
          MessageRef km = known_for_kind(s);
          std::vector<Bytes> wire; sender_bytes(s, km, wire);
          bool any = false; for (size_t i=0; i<wire.size(); i++) if (!wire[i].empty()) any = true;
          if (any)
          {
             for (size_t i=0; i<wire.size(); i++) if (!wire[i].empty()) (void) f.Give(wire[i]);
-            if ((s.kind == "text")&&(s.U(2, 0) == 0)) {Bytes nl; nl.push_back('\n'); (void) f.Give(nl);}
-            if (f.rcv.GetMessages().IsEmpty()) orc << k << " ORACLE FAIL reuse gw," << s.kind << ": after Reset() a valid stream is not delivered\n";
+            if ((mustDeliver)&&(f.rcv.GetMessages().IsEmpty())) orc << k << " ORACLE FAIL reuse gw," << s.kind << ": after Reset() a valid stream is not delivered\n";
          }
       }
    }
@@ -787,7 +858,8 @@ static void on_alarm(int)
 int main(int, char **)
 {
    CompleteSetupSystem css;
-   SetConsoleLogLevel(MUSCLE_LOG_NONE);
+   SetConsoleLogToStderr(true);
+   SetConsoleLogLevel(MUSCLE_LOG_CRITICALERROR);   // "ASSERTION FAILED: ..." lines identify a deliberate abort (MCRASH)
    signal(SIGALRM, on_alarm);
    (void) __sanitizer_install_malloc_and_free_hooks(malloc_hook, free_hook);
    {bool ok; MessageRef km = known_msg(); g_knownFlat = flatten_exact(*km(), ok);}
@@ -809,7 +881,8 @@ int main(int, char **)
       g_curCase = k;
       alarm(watchdog);
       const std::string & t = head[0];
-      if (t == "msg") run_msg(k, all, o, orc);
+      const bool mustAccept = ((head.size() > 1)&&(head[1] == "v"));
+      if (t == "msg") run_msg(k, all, o, orc, true, mustAccept);
       else if (t == "tmsg") run_tmsg(k, unhex(head.size() > 1 ? head[1] : ""), all, o, orc);
       else if (t == "nest")
       {
@@ -817,8 +890,8 @@ int main(int, char **)
          const int claim = (head.size() > 2) ? atoi(head[2].c_str()) : 0;
          run_msg(k, build_nest(depth, claim, all), o, orc);
       }
-      else if (t == "mini") run_mini(k, all, o, orc);
-      else if (t == "micro") run_micro(k, all, o, orc);
+      else if (t == "mini") run_mini(k, all, o, orc, mustAccept);
+      else if (t == "micro") run_micro(k, all, o, orc, mustAccept);
       else if (t == "minigw") run_minigw(k, segs, o, orc);
       else if (t == "microgw") run_microgw(k, (head.size() > 1) ? (uint32) strtoul(head[1].c_str(), NULL, 10) : 256, segs, o, orc);
       else if ((t == "gw")&&(head.size() > 1))
